@@ -30,6 +30,31 @@ theorem genesis_translated_pinned : Irismod.Gen.PureGenesis.translated =
      "FarmInitGenesis_cond_1(read_ctx_BlockHeight,pool_EndHeight)",
      "FarmInitGenesis_call_SetSequence_1_arg1(data_Sequence)"] := rfl
 
+/-- every rejecting guard (an `if` ending in the return of an error, or in a panic) of the translated functions and of
+the handlers around them, as source text in source order: removing, weakening or reordering one breaks this -/
+theorem genesis_guards_pinned : Irismod.Gen.PureGenesis.guards =
+    ["HtlcInitGenesis: err := types.ValidateGenesis(data); err != nil",
+     "HtlcInitGenesis: err := k.SetParams(ctx, data.Params); err != nil",
+     "HtlcInitGenesis: id, err := hex.DecodeString(htlc.Id); err != nil",
+     "HtlcInitGenesis: htlc.State != types.Open",
+     "HtlcInitGenesis: err := k.ValidateLiveAsset(ctx, htlc.Amount[0]); err != nil",
+     "HtlcInitGenesis: !supply.IncomingSupply.Amount.Equal(incomingSupply)",
+     "HtlcInitGenesis: !supply.OutgoingSupply.Amount.Equal(outgoingSupply)",
+     "HtlcInitGenesis: limit, err := k.GetSupplyLimit(ctx, supply.CurrentSupply.Denom); err != nil",
+     "HtlcInitGenesis: supply.CurrentSupply.Amount.GT(limit.Limit)",
+     "HtlcInitGenesis: supply.IncomingSupply.Amount.GT(limit.Limit)",
+     "HtlcInitGenesis: supply.IncomingSupply.Amount.Add(supply.CurrentSupply.Amount).GT(limit.Limit)",
+     "HtlcInitGenesis: supply.OutgoingSupply.Amount.GT(limit.Limit)",
+     "MtInitGenesis: err := types.ValidateGenesis(data); err != nil",
+     "MtInitGenesis: addr, err := sdk.AccAddressFromBech32(o.Address); err != nil",
+     "MtInitGenesis: err := k.IncreaseMTSupply(ctx, d.DenomId, b.MtId, b.Amount); err != nil",
+     "MtInitGenesis: err := k.AddBalance(ctx, d.DenomId, b.MtId, b.Amount, addr); err != nil",
+     "CoinswapInitGenesis: err := types.ValidateGenesis(genState); err != nil",
+     "CoinswapInitGenesis: err := k.SetParams(ctx, genState.Params); err != nil",
+     "FarmInitGenesis: err := types.ValidateGenesis(data); err != nil",
+     "FarmInitGenesis: !exist",
+     "FarmInitGenesis: err := k.SetParams(ctx, data.Params); err != nil"] := rfl
+
 /-- HTLC `InitGenesis`: a stored supply record aborts the import exactly when one of the six comparisons the model's
 `checkSupply` makes fails (recorded incoming / outgoing ≠ the tallies of the open transfers; current, incoming, their
 sum or outgoing above the limit) -/
